@@ -37,6 +37,7 @@ type SV struct {
 }
 
 type Env struct {
+	site  *CallSite // call site whose arguments are bound to arg0, arg1, ... (site assertions)
 	x     *Exec
 	names map[string]SV
 	lets  map[string]ast.Expr
@@ -564,6 +565,21 @@ func (env *Env) callExpr(n *ast.CallExpr) SV {
 		qcount++
 		q := fmt.Sprintf("%s_q%d", id, qcount)
 		lo, hi := env.int(n.Args[1]), env.int(n.Args[2])
+		// small constant ranges are expanded (no quantifier left for the solver)
+		if l, err1 := strconv.ParseInt(lo, 10, 64); err1 == nil {
+			if h, err2 := strconv.ParseInt(hi, 10, 64); err2 == nil && h-l <= 8 {
+				var parts []string
+				for k := l; k < h; k++ {
+					ch := env.child()
+					ch.names[id] = svInt(itoa(k))
+					parts = append(parts, x.evalBool(ch, n.Args[3]))
+				}
+				if fn.Name == "forall" {
+					return svBool(and(parts...))
+				}
+				return svBool(or(parts...))
+			}
+		}
 		ch := env.child()
 		ch.names[id] = svInt(q)
 		ch.bound = map[string]bool{q: true}
@@ -640,6 +656,98 @@ func (env *Env) callExpr(n *ast.CallExpr) SV {
 		s := env.toSeq(arg(0))
 		i := env.int(n.Args[1])
 		return svBool(eq(sx("bitat", s.At(sx("div", i, "8")), sx("-", "7", sx("mod", i, "8"))), "1"))
+	case "has", "get", "has_old", "get_old":
+		menv := env
+		if strings.HasSuffix(fn.Name, "_old") {
+			menv = env.withState(env.old)
+		}
+		mv := menv.eval(n.Args[0])
+		mt, ok := mv.Ty.Underlying().(*types.Map)
+		if !ok {
+			sfail("%s: not a map", fn.Name)
+		}
+		fam := x.vc.mapFamily(mt)
+		ver := fam.cur(x.vc, menv.st)
+		kv := env.eval(n.Args[1])
+		var key Val
+		switch kv.K {
+		case SGo:
+			key = kv.V
+		case SInt:
+			key = Val{ic(kv.T)}
+		case SSeq:
+			for i := 0; i < len(fam.kl.cells); i++ {
+				key = append(key, ic(kv.Seq.At(itoa(int64(i)))))
+			}
+		}
+		if len(key) != len(fam.kl.cells) {
+			sfail("%s: key has %d cells, map key needs %d", fn.Name, len(key), len(fam.kl.cells))
+		}
+		m := mv.V[0].T
+		if strings.HasPrefix(fn.Name, "has") {
+			return svBool(and(not(eq(m, "0")), fam.has(ver, m, key)))
+		}
+		return svOfVal(fam.get(ver, m, key), mt.Elem())
+	case "has_method":
+		// static: the dynamic type of interface argument k (built by MakeInterface at the site) has the method
+		k := env.argIndex(n.Args[0])
+		name, _ := strconv.Unquote(n.Args[1].(*ast.BasicLit).Value)
+		t := env.staticDynType(k)
+		if t == nil {
+			return svBool("true") // unknown dynamic type: may have it
+		}
+		ms := x.eng.prog.MethodSets.MethodSet(t)
+		for i := 0; i < ms.Len(); i++ {
+			if ms.At(i).Obj().Name() == name {
+				return svBool("true")
+			}
+		}
+		return svBool("false")
+	case "writer_kind", "reader_kind":
+		// 0 unknown, 1 record (needs the complete record in one Write / delivers arbitrary chunks),
+		// 2 stream writer (chunk-homomorphic) / in-memory reader (delivers in one chunk)
+		k := env.argIndex(n.Args[0])
+		t := env.staticDynType(k)
+		return svInt(itoa(int64(x.eng.ioKind(t, fn.Name == "writer_kind"))))
+	case "callres":
+		name, _ := strconv.Unquote(n.Args[0].(*ast.BasicLit).Value)
+		if x.trace == nil {
+			sfail("callres needs a trace")
+		}
+		var last *CallSite
+		for _, c := range x.trace.calls {
+			if calleeMatch(name, c.Callee) && c.Res != nil {
+				last = c
+			}
+		}
+		if last == nil {
+			sfail("callres: no call to %s before this point", name)
+		}
+		rt := last.Instr.Common().Signature().Results()
+		if len(n.Args) > 1 {
+			k, err := strconv.Atoi(n.Args[1].(*ast.BasicLit).Value)
+			if err != nil || k >= rt.Len() {
+				sfail("callres: bad result index")
+			}
+			off := x.vc.ls.tupleOff(rt, k)
+			return svOfVal(last.Res[off:off+x.vc.ls.size(rt.At(k).Type())], rt.At(k).Type())
+		}
+		if rt.Len() == 1 {
+			return svOfVal(last.Res, rt.At(0).Type())
+		}
+		return svOfVal(last.Res, rt)
+	case "written":
+		v := arg(0)
+		return svInt(ghost(env.st, "written:"+x.vc.canon(v.V[1].T)))
+	case "bitof":
+		return svInt(sx("bitat", env.int(n.Args[0]), env.int(n.Args[1])))
+	case "reqdata":
+		// Data of field (hi, lo) of the parsed request (mode A ghost object REQ)
+		hi, lo := env.int(n.Args[0]), env.int(n.Args[1])
+		off := sx("*", sx("+", sx("*", hi, "256"), lo), "16")
+		ft := x.eng.fieldType()
+		doff, dt := x.fieldAt(types.NewPointer(ft), "Data")
+		return svOfVal(x.vc.load(env.st, x.vc.ls.of(dt), "REQ", add(off, itoa(int64(doff)))), dt)
 	case "priv":
 		v := arg(0)
 		x.vc.S.declFun("priv", []string{"Int", "Int", "Int"}, "Bool")
@@ -753,4 +861,32 @@ func (x *Exec) eofVal(st *State) Val {
 		S.raw("(declare-fun ioEOF_t () Int)\n(declare-fun ioEOF_a () Int)\n(declare-fun ioEOF_b () Int)\n(assert (> ioEOF_t 0))")
 	}
 	return Val{ic("ioEOF_t"), ic("ioEOF_a"), ic("ioEOF_b")}
+}
+
+func (env *Env) argIndex(e ast.Expr) int {
+	id, ok := e.(*ast.Ident)
+	if !ok || !strings.HasPrefix(id.Name, "arg") {
+		sfail("expected argK")
+	}
+	k, err := strconv.Atoi(id.Name[3:])
+	if err != nil || env.site == nil || k >= len(env.site.ArgVals) {
+		sfail("bad argument reference %s", id.Name)
+	}
+	return k
+}
+
+// staticDynType: the concrete type stored into interface argument k at this site, if the
+// interface value is built right here (MakeInterface); nil when unknown.
+func (env *Env) staticDynType(k int) types.Type {
+	v := env.site.ArgVals[k]
+	for {
+		switch u := v.(type) {
+		case *ssa.MakeInterface:
+			return u.X.Type()
+		case *ssa.ChangeInterface:
+			v = u.X
+			continue
+		}
+		return nil
+	}
 }
